@@ -172,8 +172,9 @@ def check_suggestions(text, rec, sugg):
         if ec['eof']:
             variants = [stripped + ' ' + s]
         else:
-            variants = [stripped[:ec['index']] + s + ' ' + stripped[ec['index']:],
-                        stripped[:ec['index']] + s + ' ' + stripped[ec['end']:]]
+            # blanks on both sides: the suggestion is a token of its own (the input may read `0.5FIELDS`)
+            variants = [stripped[:ec['index']] + ' ' + s + ' ' + stripped[ec['index']:],
+                        stripped[:ec['index']] + ' ' + s + ' ' + stripped[ec['end']:]]
         ok = False
         for v in variants:
             acc_, prog = first_error_progress(v)
@@ -187,9 +188,9 @@ def check_suggestions(text, rec, sugg):
                 # suggestion is inserted before the offending token or put in place of the token BEFORE it.  A suggestion
                 # that fails the property but passes that criterion is the listed mechanism; one that fails both is new.
                 prev = [t for t in rec.tokens if t[2] < ec['index']]
-                lib_variants = [stripped[:ec['index']] + s + ' ' + stripped[ec['index']:]]
+                lib_variants = [stripped[:ec['index']] + ' ' + s + ' ' + stripped[ec['index']:]]
                 if prev:
-                    lib_variants.append(stripped[:prev[-1][2]] + s + ' ' + stripped[prev[-1][3]:])
+                    lib_variants.append(stripped[:prev[-1][2]] + ' ' + s + ' ' + stripped[prev[-1][3]:])
                 lib_ok = any(first_error_progress(v)[0] for v in lib_variants)
                 mode = 'checked-list:passes-library-criterion' if lib_ok else 'checked-list:fails-library-criterion'
             bad.append((s, mode))
